@@ -74,6 +74,13 @@ def gen_sds(rng, ti, n_in, n_out, rich):
             sd['tgt_space'] = 'client'
             if form == 'bare':
                 sd['tgt_name'] = name
+        if form == 'dict' and sd['action'] == rp.TRANSFER and \
+                sd['tgt_space'] == 'client' and rng.random() < 0.3:
+            # a target which is accepted at submission but cannot be resolved
+            # when the client side output stager meets it (a host in a
+            # `client://` URL): cannot be carried out - fails this task only
+            sd['bad_url'] = True
+            sd['missing'] = True
         outs.append(sd)
     return ins, outs
 
@@ -174,6 +181,27 @@ def gen_scenario(rng, tier, knobs):
                     'tgt_name': rng.choice([ps['name'], 'sub/%s' % ps['name']]),
                     'tgt_schema': 'rel', 'src_abs': False, 'missing': False,
                     'pstaged': True}]
+    # flavour: the tasks finish together and reach the output stagers as one
+    # bulk; one of them has an output directive which cannot be carried out.
+    # Drawn after everything else.
+    if rng.random() < knobs.get('out_bulk_prob', 0.0) and \
+            not sc.get('ghost'):
+        rt = rng.choice([0.1, 0.3])
+        bad = rng.randrange(len(tasks))
+        for i, t in enumerate(tasks):
+            t['at'], t['runtime'], t['rc'] = 0.0, rt, 0
+            t['descr']['ranks'] = 1
+            t['descr'].pop('timeout', None)
+            t.pop('spawn_error', None)
+            kind = rng.choice(['bad_url', 'missing']) if i == bad else None
+            t['outs'] = [{'form': 'dict', 'action': rp.TRANSFER,
+                          'name': 'out_%d_0.dat' % i,
+                          'tgt_name': 'out_%d_0.dat' % i,
+                          'tgt_space': 'client', 'missing': kind is not None,
+                          'bad_url': kind == 'bad_url'}]
+        sc['ops'] = [o for o in sc['ops'] if o[1] == 'partition']
+        sc['layout']['cpn'] = max(sc['layout']['cpn'], 4)
+        sc['layout']['nodes'] = 2
     # tuning knob: number of tasks without client side staging from which on
     # the tmgr input stager pre-creates their sandboxes by tar (default 16)
     sc['mkdir_threshold'] = rng.choice([16, 16, 1, 2, 3])
@@ -259,7 +287,9 @@ def make_directives(w, uid, t):
         # writes them into the task sandbox when the process is spawned
         src = sd['name']
         tgt_dir = sp[sd['tgt_space']]
-        if sd['tgt_space'] == 'client':
+        if sd.get('bad_url'):
+            tgt = 'client://localhost/%s' % sd['tgt_name']
+        elif sd['tgt_space'] == 'client':
             tgt = sd['tgt_name']
         else:
             tgt = '%s:///%s' % (sd['tgt_space'], sd['tgt_name'])
@@ -274,7 +304,7 @@ def make_directives(w, uid, t):
         exp.append({'kind': 'out', 'path': os.path.normpath(tgt_path),
                     'content': content_of(uid, sd['name']),
                     'missing': sd['missing'], 'action': sd['action'],
-                    'name': sd['name']})
+                    'name': sd['name'], 'bad_url': sd.get('bad_url', False)})
     return ins, outs, exp
 
 
@@ -382,7 +412,8 @@ def run(seed, sc, trace=None, tier='quick'):
                 p = real_plan(args, kwargs)
                 uid = p.get('tag')
                 for e in st['exp'].get(uid, []):
-                    if e['kind'] == 'out' and not e['missing'] and \
+                    if e['kind'] == 'out' and \
+                            (not e['missing'] or e.get('bad_url')) and \
                             not p.get('spawn_error'):
                         sb = spaces(w, uid)['task']
                         os.makedirs(sb, exist_ok=True)
